@@ -469,17 +469,17 @@ PLAN_C01 = dict(
           # follower running freely: block steps overlap further chain changes, also in the middle of a step
           gen('Gen_Pay.cfg', 'MC_Pay.tla', mode='free',
               quick=[SIM(15, 16, **MS)],
-              thorough=[SIM(1500, 18, **MS), SIM(1000, 18)]),
+              thorough=[SIM(750, 18, **MS), SIM(500, 18)]),
           # ... and with every chain action, scheduling point and commit recorded and judged by TLC (spec/WalletTrace.tla)
           gen('Gen_Pay.cfg', 'MC_Pay.tla', mode='trace',
               quick=[SIM(40, 16, **dict(MS, **P))],
-              thorough=[SIM(1200, 18, **dict(MS, **P)), SIM(800, 18, **P)]),
+              thorough=[SIM(600, 18, **dict(MS, **P)), SIM(400, 18, **P)]),
           gen('Gen_In.cfg', 'MC_In.tla', mode='trace',
               quick=[SIM(25, 16, **P)],
-              thorough=[SIM(800, 18, **P)]),
+              thorough=[SIM(400, 18, **P)]),
           gen('Gen_Stake.cfg', 'MC_Stake.tla', universe_extra=STAKE_X, mode='free',
               quick=[SIM(30, 16)],
-              thorough=[SIM(1000, 18, **MS)])],
+              thorough=[SIM(500, 18, **MS)])],
 )
 
 PLAN_C09 = dict(
@@ -500,10 +500,10 @@ PLAN_C09 = dict(
           # free-running follower, every commit's pending set judged by TLC against the interleaving that really happened
           gen('Gen_Pay.cfg', 'MC_Pay.tla', mode='trace',
               quick=[SIM(40, 16, **P)],
-              thorough=[SIM(1500, 18, **P)]),
+              thorough=[SIM(750, 18, **P)]),
           gen('Gen_Stake.cfg', 'MC_Stake.tla', universe_extra=STAKE_X, mode='trace',
               quick=[SIM(30, 16, **P)],
-              thorough=[SIM(1000, 18, **dict(MS, **P))])],
+              thorough=[SIM(500, 18, **dict(MS, **P))])],
     assume=['theme "incoming" has stranger-owned inputs: a conflict on a stranger\'s coin is invisible to the follower (K-C09-2); the model transcribes the code\'s purge rule and the ideal (Settle) is compared separately'],
 )
 
@@ -518,7 +518,7 @@ PLAN_C10 = dict(
               thorough=[SIM(1000, 14), SIM(500, 14, **P)]),
           gen('Gen_Stake.cfg', 'MC_Stake.tla', universe_extra=STAKE_X, mode='trace',
               quick=[SIM(30, 16, **MS)],
-              thorough=[SIM(1000, 18, **MS)])],
+              thorough=[SIM(500, 18, **MS)])],
     assume=['withdrawals of new-style bindings are never mined: the pinned mass-core AddrIndexer cannot attach such a block (Amount.AddInt underflow); they occur as unconfirmed transactions only'],
 )
 
@@ -599,10 +599,10 @@ def crash_traceable(h):
 # a step), Start's catch-up commits are recorded one by one (spec/WalletTrace.tla EvCrash / EvRestartCommit / EvRestarted)
 PLAN_C06['gens'].append(gen('Gen_Pay.cfg', 'MC_Pay.tla', mode='trace', filter=crash_traceable,
                             quick=[SIM(50, 16, **dict(CR, **P))],
-                            thorough=[SIM(1500, 18, **dict(CR, **P)), SIM(800, 18, **dict(CR, **MS))]))
+                            thorough=[SIM(750, 18, **dict(CR, **P)), SIM(400, 18, **dict(CR, **MS))]))
 PLAN_C06['gens'].append(gen('Gen_Stake.cfg', 'MC_Stake.tla', universe_extra=STAKE_X, mode='trace', filter=crash_traceable,
                             quick=[SIM(30, 16, **CR)],
-                            thorough=[SIM(1000, 18, **dict(CR, **P))]))
+                            thorough=[SIM(500, 18, **dict(CR, **P))]))
 KINDS['C06'] += ['trace-rejected', 'free-not-quiescent']
 PROPS['C06'] = plan_check(PLAN_C06)
 
@@ -633,10 +633,10 @@ PLAN_C07 = dict(
               thorough=[SIM(1500, 18, **IMPORT_ONLY), SIM(1500, 18, **dict(IMPORT_ONLY, InitAbsent='{"w1"}')), SIM(800, 18, **dict(IMPORT_ONLY, InitAbsent='{"w1", "w2"}'))]),
           gen('Gen_Imp.cfg', 'MC_Imp.tla', mode='free',
               quick=[SIM(15, 16, **IMPORT_ONLY)],
-              thorough=[SIM(1500, 18, **IMPORT_ONLY)]),
+              thorough=[SIM(750, 18, **IMPORT_ONLY)]),
           gen('Gen_Imp.cfg', 'MC_Imp.tla', mode='trace', filter=free_runnable,
               quick=[SIM(40, 18, **dict(IMPORT_ONLY, **MS))],
-              thorough=[SIM(1500, 18, **dict(IMPORT_ONLY, **MS)), SIM(800, 18, **dict(IMPORT_ONLY, ImportBatch='1'))]),
+              thorough=[SIM(750, 18, **dict(IMPORT_ONLY, **MS)), SIM(400, 18, **dict(IMPORT_ONLY, ImportBatch='1'))]),
           gen('Gen_Imp.cfg', 'MC_Imp.tla', universe_extra=OFFSET, filter=one_task_at_a_time,
               quick=[dict(SIM(20, 14, **dict(IMPORT_ONLY, InitAbsent='{"w1", "w2"}')), sample=12), dict(SIM(12, 14, **IMPORT_ONLY), sample=8)],
               thorough=[dict(SIM(300, 16, **dict(IMPORT_ONLY, InitAbsent='{"w1", "w2"}')), sample=160), dict(SIM(150, 16, **IMPORT_ONLY), sample=80)])],
@@ -658,16 +658,16 @@ PLAN_C08 = dict(
               thorough=[SIM(1500, 18, **dict(REMOVE_ONLY, **MS)), SIM(1000, 18, **dict(LIFE, Crashes='TRUE', **MS))]),
           gen('Gen_Pay.cfg', 'MC_Pay.tla', mode='free', filter=no_crash,
               quick=[SIM(15, 16, **LIFE)],
-              thorough=[SIM(1500, 18, **LIFE)]),
+              thorough=[SIM(750, 18, **LIFE)]),
           gen('Gen_Stake.cfg', 'MC_Stake.tla', universe_extra=STAKE_X, mode='free', filter=no_crash,
               quick=[SIM(15, 16, **REMOVE_ONLY)],
-              thorough=[SIM(1500, 18, **LIFE)]),
+              thorough=[SIM(750, 18, **LIFE)]),
           gen('Gen_Pay.cfg', 'MC_Pay.tla', mode='trace', filter=no_crash,
               quick=[SIM(40, 16, **LIFE)],
-              thorough=[SIM(1500, 18, **LIFE)]),
+              thorough=[SIM(750, 18, **LIFE)]),
           gen('Gen_Stake.cfg', 'MC_Stake.tla', universe_extra=STAKE_X, mode='trace', filter=free_runnable,
               quick=[SIM(40, 16, **dict(REMOVE_ONLY, **MS))],
-              thorough=[SIM(1000, 18, **dict(LIFE, **MS))])],
+              thorough=[SIM(500, 18, **dict(LIFE, **MS))])],
     assume=['a removal deletes fewer than 20000 credits, i.e. it completes in one removal round after the first phase',
             'with MultiStep the removal is two model steps (RemoveStepA: phase 1, RemoveStepB: the round of phase 2) and block steps fall between them; mode "free": follower and worker run without step gates, only the final ledger is compared'],
 )
@@ -676,7 +676,7 @@ PROPS['C08'] = plan_check(PLAN_C08)
 # announcements racing with a wallet import (F-C09-2 was found here): without removals the model's pending set is exact
 PLAN_C09['gens'].append(gen('Gen_Pay.cfg', 'MC_Pay.tla', mode='trace', trace_pend=True, filter=free_runnable,
                             quick=[SIM(60, 16, **dict(IMPORT_ONLY, **P))],
-                            thorough=[SIM(1500, 18, **dict(IMPORT_ONLY, **P))]))
+                            thorough=[SIM(750, 18, **dict(IMPORT_ONLY, **P))]))
 # crashes during background import / removal belong to C06 as well
 PLAN_C06['gens'][0]['quick'].append(SIM(60, 16, **dict(LIFE, Crashes='TRUE')))
 PLAN_C06['gens'][0]['thorough'].append(SIM(1500, 18, **dict(LIFE, Crashes='TRUE')))
